@@ -613,6 +613,7 @@ func runC07(e *Engine, r *Report) {
 		_ = na
 	}
 	borrow(e, r, "C08", "MPT-restore-replaces")
+	borrow(e, r, "C01", "MPT-lastapplied-after-apply")
 	ruleAddressScanAllKinds(e, r)
 }
 
